@@ -83,7 +83,9 @@ Compare(S, res, in, ob, hist2) ==
       balIss == IF D = {} \/ res.info.taint THEN {} ELSE
                 {<<"C04", <<"balances differ from the exact effects of the block's events", h, D>>>>}
                 \* role-specific tags: only addresses whose ONLY role in this block is the one in question
-                \cup (LET X == (DA \cap winnersA) \ (batchA \cup special \cup res.info.stakers) IN
+                \* (payout addresses of ALL staking records of the block count: records that do not win pay nothing)
+                \cup (LET sprAll == {in.spr.sprs[i].coinbase : i \in 1..Len(in.spr.sprs)}
+                          X == (DA \cap (winnersA \cup sprAll)) \ (batchA \cup special \cup res.info.stakers) IN
                       IF X # {} THEN {<<"C11", <<"reward balance delta differs from the graded payout", h, X>>>>} ELSE {})
                 \cup (LET X == (DA \cap burners) \ (batchA \cup winnersA \cup special) IN
                       IF X # {} /\ h < TAct("V20") THEN {<<"C11", <<"burn credit differs", h, X>>>>} ELSE {})
